@@ -210,6 +210,26 @@ def run(ctx):
                       'forced': forced, 'seed': rng.randrange(1, 2 ** 32), 'maxrep': 3,
                       'features': {'nested-204-then-outer': 1}, 'shared': False})
         cases[-1]['shared'] = cases[-1]['compressed']
+    # uncompressed subsets whose layout BEFORE a marker operator differs (different delayed-replication counts) while the
+    # bitmap designates the same positions: what a marker takes from its element is decided per subset
+    for k in range(ctx.n(16, 200)):
+        a, b2, c3 = rng.sample([12001, 10004, 11001, 7001, 1001, 20003, 13003], 3)
+        op = rng.choice([223, 224, 225, 232])
+        m = rng.choice([2, 3])
+        sig = [8023] if op == 224 else [8024] if op == 225 else []
+        ids = [a, 101000, 31001, b2, 101000, 31001, c3, op * 1000, 236000, 101000 + m, 31031] + sig + [op * 1000 + 255] * m
+        if k % 3 == 0:
+            ids += [(op if op != 232 else 224) * 1000 + (0), 237000] + ([8023] if op in (224, 232) else [8024] if op == 225 else []) + \
+                   [(op if op != 232 else 224) * 1000 + 255] * m
+        nsub = rng.choice([2, 3, 4])
+        tot = rng.choice([2, 3])
+        variants = []
+        for j in range(nsub):
+            n1 = (j + k) % (tot + 1)
+            variants.append('31001=%d.%d;31031=%s' % (n1, tot - n1, '.'.join(['0'] * m)))
+        cases.append({'ids': ids, 'version': 33, 'edition': 4, 'nsub': nsub, 'compressed': False, 'forced': '||'.join(variants),
+                      'seed': rng.randrange(1, 2 ** 32), 'maxrep': 3, 'features': {'same-boundary-different-layout': 1},
+                      'shared': False})
     P.attach_templates(cases)
     P.run_gen(cases)
     P.run_encode(cases)
